@@ -410,7 +410,7 @@ pub fn run(e: &'static Engine) {
         }
     }
     e.par(jobs);
-    let total: u32 = e.tier.pick(192, 3200);
+    let total: u32 = e.tier.pick(640, 6400);
     let shards = e.tier.pick(16u32, 64);
     let mut jobs: Vec<Job> = Vec::new();
     for _ in 0..shards {
